@@ -495,6 +495,15 @@ func (m *Model) applyDDL(t *Table, s *Stmt) (verdict, error) {
 			t.Uniq = append(t.Uniq, append([]string(nil), s.IdxCols...))
 		}
 		v.Effects++
+	case "drop-constraint":
+		var cks []Check
+		for _, k := range t.Checks {
+			if k.Name != s.Col {
+				cks = append(cks, k)
+			}
+		}
+		t.Checks = cks
+		v.Effects++
 	case "add-column":
 		if t.col(s.ColDef.Name) != nil {
 			return v, fmt.Errorf("column %s.%s already in the model", t.Name, s.ColDef.Name)
